@@ -475,6 +475,9 @@ def run_case(case):
                 for s in (s1, s2):
                     s.add(m=r.uniform(0, 2), x=r.uniform(-5, 5), y=r.uniform(-5, 5), z=r.uniform(-5, 5), vx=r.uniform(-5, 5), vy=r.uniform(-5, 5), vz=r.uniform(-5, 5))
             a, b = r.uniform(-3, 3), r.uniform(-3, 3)
+            if r.random() < 0.4:
+                # the special scalars: exactly 0 (freeze / project), -0.0, +-1, and equal scalars
+                a, b = r.choice([(a, 0.0), (a, -0.0), (0.0, b), (1.0, 0.0), (a, a), (-1.0, 1.0), (0.0, 0.0), (a, 1.0)])
             base = [(p.x, p.y, p.z, p.vx, p.vy, p.vz) for p in s1.particles]
             other = [(p.x, p.y, p.z, p.vx, p.vy, p.vz) for p in s2.particles]
             t = s1.copy()
